@@ -19,7 +19,7 @@ PROG = {
     4: (True, [("log",), ("def", 0, 41), ("req", ("unqual",), 5)]),
     5: (True, [("log",), ("req", ("import", [(0, 2)]), 4), ("def", 0, 51)]),
 }
-ALPHA = [("def", 0, 1), ("assign", 0, 2), ("read", 0), ("bump", 1001), ("fail",), ("syntax",), ("defthenfail", 1, 7), ("loopabort", 0), ("loopshadow", 0), ("compabort", 0, 0), ("callabort", 0, 0),
+ALPHA = [("def", 0, 1), ("assign", 0, 2), ("read", 0), ("bump", 1001), ("fail",), ("syntax",), ("defthenfail", 1, 7), ("loopabort", 0), ("loopshadow", 0), ("compabort", 0, 0), ("callabort", 0, 0), ("fnassignd", 0, 4),
          ("req", ("qual", None), 1), ("req", ("qual", None), 6), ("req", ("unqual",), 2), ("req", ("qual", None), 3), ("req", ("qual", 10), 4)]
 
 
@@ -105,6 +105,8 @@ def main(tier, seed, replay=None):
                     c = ("loopshadow", rnd.choice(sesscheck.PUB + sesscheck.ALIASES + [1001]))
                 elif rnd.random() < 0.3:
                     c = ("compabort", rnd.choice(sesscheck.PUB + sesscheck.ALIASES), rnd.randint(0, 6))
+                elif rnd.random() < 0.3:
+                    c = ("fnassignd", rnd.choice(sesscheck.PUB + sesscheck.ALIASES), rnd.randint(0, 50))
                 elif rnd.random() < 0.4:
                     c = ("callabort", rnd.choice(sesscheck.PUB + sesscheck.ALIASES), rnd.randint(0, 5))
             elif k < 0.8:
